@@ -1,74 +1,109 @@
 /-
-  C17 over ordered fields (ℚ, ℝ, …; single Mathlib modules): under the standard model of
-  floating-point rounding — every cast has relative error at most `u` — the value a conversion
-  route produces from an integer is within `(1+u)^4 - 1` (relative) of the exact product `n * f`,
-  the copying and the in-place route agree up to twice that, and whenever the exact value is
-  non-zero (e.g. strictly between 0 and 1, where an integer operation yields 0) neither route
-  returns 0.  Property theorems only; lemmas in `C17Approx.lean`.
+  C17 over ordered fields (ℚ, ℝ, …; single Mathlib modules): a rounding model **on a bounded
+  range**.  `RangeModel A u lo hi` says that every cast (and the integer-to-float conversion) has
+  relative error at most `u` for arguments whose magnitude lies in `[lo, hi]` — what an IEEE format
+  guarantees between its smallest normal number and its largest finite one, and nothing outside
+  (underflow to zero, overflow to infinity).  Under it, for data, factor and exact result inside the
+  range (with a factor-2 margin), the value a conversion route produces from an integer is within
+  `(1+u)^4 - 1` (relative) of the exact product `n * f`, the copying and the in-place route agree up
+  to twice that, and neither route returns 0.  Outside the range nothing of the kind holds:
+  `underflow_outside_range` exhibits a model of the hypotheses in which a non-zero exact value is
+  converted to 0 — that is rounding (the property says "rounded to that float type"), not
+  truncation, and the theorems do not claim otherwise.
+
+  The hypotheses are met jointly by a model that is *not* exact: `gridOps`, rounding to the nearest
+  multiple of a grid step (`gridOps_rangeModel`, any `u > 0`; instantiated over ℚ).
+  Property theorems only; lemmas in `C17Approx.lean`.
 -/
 import UnytProofs.Real.C17Approx
+import Mathlib.Algebra.Order.Round
+import Mathlib.Data.Rat.Floor
 import UnytModel.Dtype
+
+set_option linter.unusedVariables false
 
 namespace Unyt.C17R
 open Unyt
 
 variable {K : Type} [Field K] [LinearOrder K] [IsStrictOrderedRing K]
 
-/-- the standard model: every cast (and the integer-to-float conversion) has relative error ≤ `u` -/
-structure StandardModel (A : NumOps K) (u : K) : Prop where
+/-- `x` lies in the range on which the rounding model is accurate -/
+def InRange (lo hi x : K) : Prop := lo ≤ |x| ∧ |x| ≤ hi
+
+/-- the rounding model on a bounded range: every cast, and the integer-to-float conversion, has
+    relative error ≤ `u` for arguments of magnitude in `[lo, hi]` (smallest normal … largest finite) -/
+structure RangeModel (A : NumOps K) (u lo hi : K) : Prop where
   u_nonneg : 0 ≤ u
-  cast_err : ∀ d x, |A.cast d x - x| ≤ u * |x|
-  int_err : ∀ d (n : Int), |A.cast d (A.ofInt n) - (n : K)| ≤ u * |(n : K)|
+  u_small : u ≤ 1 / 16
+  cast_err : ∀ d x, InRange lo hi x → |A.cast d x - x| ≤ u * |x|
+  int_err : ∀ d (n : Int), InRange lo hi (n : K) → |A.cast d (A.ofInt n) - (n : K)| ≤ u * |(n : K)|
 
 variable [BEq K]
 
-/-- non-vacuity: exact arithmetic is a standard model with `u = 0` -/
-example : StandardModel (exactOps K (fun n => (n : K))) 0 :=
-  ⟨le_refl 0, by intro d x; simp [exactOps], by intro d n; simp [exactOps]⟩
-
-/-- copy route (`in_units`) on integer data: the value is within `(1+u)^4 - 1` of the exact product -/
-theorem copy_value_within (A : NumOps K) (u : K) (S : StandardModel A u)
-    (m new : Dtype) (hm : m.kind ≠ .c) (hn : new.kind ≠ .c) (n : Int) (f : K) :
+/-- copy route (`in_units`) on integer data, everything inside the range: the value is within
+    `(1+u)^4 - 1` of the exact product -/
+theorem copy_value_within (A : NumOps K) (u lo hi : K) (S : RangeModel A u lo hi)
+    (m new : Dtype) (hm : m.kind ≠ .c) (hn : new.kind ≠ .c) (n : Int) (f : K)
+    (hnr : InRange lo hi (n : K)) (hfr : InRange lo hi f)
+    (hlo : 2 * lo ≤ |(n : K) * f|) (hhi : |(n : K) * f| ≤ hi / 2) :
     ∃ r, copyValue A m new (.int n) f none = .real r ∧ Approx r ((n : K) * f) ((1 + u) ^ 4 - 1) := by
   refine ⟨A.cast new (A.cast m (A.cast m (A.ofInt n) * A.cast m f)), ?_, ?_⟩
   · simp [copyValue, castElem, mulIn, offsetTruthy, hm, hn]
   · have hu := S.u_nonneg
-    have a1 : Approx (A.cast m (A.ofInt n)) (n : K) u := S.int_err m n
-    have b1 : Approx (A.cast m f) f u := S.cast_err m f
+    obtain ⟨s2, s3⟩ := small3 hu S.u_small
+    have a1 : Approx (A.cast m (A.ofInt n)) (n : K) u := S.int_err m n hnr
+    have b1 : Approx (A.cast m f) f u := S.cast_err m f hfr
     have p := approx_mul hu hu a1 b1
     have he1 : 0 ≤ (1 + u) * (1 + u) - 1 := by nlinarith
-    have c1 := approx_cast (A.cast m) u hu (S.cast_err m) he1 p
+    have r1 := approx_in_range he1 s2 p hlo hhi
+    have c1 := approx_cast (A.cast m) u hu (S.cast_err m _ r1) he1 p
     have he2 : 0 ≤ (1 + ((1 + u) * (1 + u) - 1)) * (1 + u) - 1 := by nlinarith
-    have c2 := approx_cast (A.cast new) u hu (S.cast_err new) he2 c1
+    have r2 := approx_in_range he2 s3 c1 hlo hhi
+    have c2 := approx_cast (A.cast new) u hu (S.cast_err new _ r2) he2 c1
     have e : (1 + ((1 + ((1 + u) * (1 + u) - 1)) * (1 + u) - 1)) * (1 + u) - 1 = (1 + u) ^ 4 - 1 := by ring
     rw [e] at c2
     exact c2
 
-/-- in-place route (`convert_to_units`) on integer data: the same bound -/
-theorem inplace_value_within (A : NumOps K) (u : K) (S : StandardModel A u)
-    (new : Dtype) (hn : new.kind ≠ .c) (n : Int) (f : K) :
+/-- in-place route (`convert_to_units`) on integer data: the same bound (the integer needs the
+    factor-2 margin too, because its float image is cast once more) -/
+theorem inplace_value_within (A : NumOps K) (u lo hi : K) (S : RangeModel A u lo hi)
+    (new : Dtype) (hn : new.kind ≠ .c) (n : Int) (f : K)
+    (hnlo : 2 * lo ≤ |(n : K)|) (hnhi : |(n : K)| ≤ hi / 2) (hlo0 : 0 ≤ lo) (hfr : InRange lo hi f)
+    (hlo : 2 * lo ≤ |(n : K) * f|) (hhi : |(n : K) * f| ≤ hi / 2) :
     ∃ r, inplaceValue A new (.int n) f none = .real r ∧ Approx r ((n : K) * f) ((1 + u) ^ 4 - 1) := by
   refine ⟨A.cast new (A.cast new (A.cast new (A.ofInt n)) * A.cast new f), ?_, ?_⟩
   · simp [inplaceValue, castElem, mulIn, offsetTruthy, hn]
   · have hu := S.u_nonneg
-    have a1 : Approx (A.cast new (A.ofInt n)) (n : K) u := S.int_err new n
-    have a2 := approx_cast (A.cast new) u hu (S.cast_err new) hu a1
-    have b1 : Approx (A.cast new f) f u := S.cast_err new f
+    obtain ⟨s2, s3⟩ := small3 hu S.u_small
+    have hnr : InRange lo hi (n : K) := by
+      have : 0 ≤ |(n : K)| := abs_nonneg _
+      constructor <;> linarith
+    have a1 : Approx (A.cast new (A.ofInt n)) (n : K) u := S.int_err new n hnr
+    have hu2 : u ≤ 1 / 2 := by linarith [S.u_small]
+    have r0 := approx_in_range hu hu2 a1 hnlo hnhi
+    have a2 := approx_cast (A.cast new) u hu (S.cast_err new _ r0) hu a1
+    have b1 : Approx (A.cast new f) f u := S.cast_err new f hfr
     have he0 : 0 ≤ (1 + u) * (1 + u) - 1 := by nlinarith
     have p := approx_mul he0 hu a2 b1
     have he1 : 0 ≤ (1 + ((1 + u) * (1 + u) - 1)) * (1 + u) - 1 := by nlinarith
-    have c1 := approx_cast (A.cast new) u hu (S.cast_err new) he1 p
+    have r1 := approx_in_range he1 s3 p hlo hhi
+    have c1 := approx_cast (A.cast new) u hu (S.cast_err new _ r1) he1 p
     have e : (1 + ((1 + ((1 + u) * (1 + u) - 1)) * (1 + u) - 1)) * (1 + u) - 1 = (1 + u) ^ 4 - 1 := by ring
     rw [e] at c1
     exact c1
 
-/-- hence the two routes agree on the values up to twice that bound -/
-theorem routes_agree_within (A : NumOps K) (u : K) (S : StandardModel A u)
-    (m new : Dtype) (hm : m.kind ≠ .c) (hn : new.kind ≠ .c) (n : Int) (f : K) :
+/-- hence, inside the range, the two routes agree on the values up to twice that bound -/
+theorem routes_agree_within (A : NumOps K) (u lo hi : K) (S : RangeModel A u lo hi)
+    (m new : Dtype) (hm : m.kind ≠ .c) (hn : new.kind ≠ .c) (n : Int) (f : K)
+    (hnlo : 2 * lo ≤ |(n : K)|) (hnhi : |(n : K)| ≤ hi / 2) (hlo0 : 0 ≤ lo) (hfr : InRange lo hi f)
+    (hlo : 2 * lo ≤ |(n : K) * f|) (hhi : |(n : K) * f| ≤ hi / 2) :
     ∃ r1 r2, copyValue A m new (.int n) f none = .real r1 ∧ inplaceValue A new (.int n) f none = .real r2
       ∧ |r1 - r2| ≤ 2 * ((1 + u) ^ 4 - 1) * |(n : K) * f| := by
-  obtain ⟨r1, h1, a1⟩ := copy_value_within A u S m new hm hn n f
-  obtain ⟨r2, h2, a2⟩ := inplace_value_within A u S new hn n f
+  have hnr : InRange lo hi (n : K) := by
+    have : 0 ≤ |(n : K)| := abs_nonneg _
+    constructor <;> linarith
+  obtain ⟨r1, h1, a1⟩ := copy_value_within A u lo hi S m new hm hn n f hnr hfr hlo hhi
+  obtain ⟨r2, h2, a2⟩ := inplace_value_within A u lo hi S new hn n f hnlo hnhi hlo0 hfr hlo hhi
   refine ⟨r1, r2, h1, h2, ?_⟩
   unfold Approx at a1 a2
   have : r1 - r2 = (r1 - (n : K) * f) - (r2 - (n : K) * f) := by ring
@@ -76,23 +111,30 @@ theorem routes_agree_within (A : NumOps K) (u : K) (S : StandardModel A u)
   have := abs_sub (r1 - (n : K) * f) (r2 - (n : K) * f)
   linarith
 
-/-- never truncated: when the exact converted value is non-zero (for instance strictly between 0 and
-    1, where an integer operation yields 0) and the accumulated rounding error is below 100 %
-    (`u ≤ 1/8` suffices; binary16 has `u = 2^-11`), neither route returns 0 -/
-theorem never_zero_when_exact_nonzero (A : NumOps K) (u : K) (S : StandardModel A u) (hu8 : u ≤ 1 / 8)
-    (m new : Dtype) (hm : m.kind ≠ .c) (hn : new.kind ≠ .c) (n : Int) (f : K) (hne : (n : K) * f ≠ 0) :
+/-- never truncated **inside the range**: when data, factor and the exact converted value lie in the
+    range where the float type is accurate (for instance an exact value strictly between 0 and 1 but
+    above the smallest normal number, where an integer operation yields 0), neither route returns 0.
+    Below the range the result may round to 0 (`underflow_outside_range`). -/
+theorem never_zero_inside_range (A : NumOps K) (u lo hi : K) (S : RangeModel A u lo hi)
+    (m new : Dtype) (hm : m.kind ≠ .c) (hn : new.kind ≠ .c) (n : Int) (f : K)
+    (hnlo : 2 * lo ≤ |(n : K)|) (hnhi : |(n : K)| ≤ hi / 2) (hlo0 : 0 < lo) (hfr : InRange lo hi f)
+    (hlo : 2 * lo ≤ |(n : K) * f|) (hhi : |(n : K) * f| ≤ hi / 2) :
     copyValue A m new (.int n) f none ≠ .real 0 ∧ inplaceValue A new (.int n) f none ≠ .real 0 := by
   have hu := S.u_nonneg
   have hsmall : (1 + u) ^ 4 - 1 < 1 := by
-    have h1 : (1 + u) ^ 2 ≤ (1 + 1 / 8) ^ 2 := by nlinarith
+    have h16 := S.u_small
+    have h1 : (1 + u) ^ 2 ≤ (1 + 1 / 16) ^ 2 := by nlinarith
     have h2 : (1 + u) ^ 4 = ((1 + u) ^ 2) ^ 2 := by ring
     have h3 : 0 ≤ (1 + u) ^ 2 := by positivity
-    have h4 : ((1 + u) ^ 2) ^ 2 ≤ ((1 + 1 / 8 : K) ^ 2) ^ 2 := by nlinarith
-    have h5 : ((1 + 1 / 8 : K) ^ 2) ^ 2 < 2 := by norm_num
+    have h4 : ((1 + u) ^ 2) ^ 2 ≤ ((1 + 1 / 16 : K) ^ 2) ^ 2 := by nlinarith
+    have h5 : ((1 + 1 / 16 : K) ^ 2) ^ 2 < 2 := by norm_num
     rw [h2]; linarith
-  have hpos : 0 < |(n : K) * f| := abs_pos.2 hne
-  obtain ⟨r1, h1, a1⟩ := copy_value_within A u S m new hm hn n f
-  obtain ⟨r2, h2, a2⟩ := inplace_value_within A u S new hn n f
+  have hpos : 0 < |(n : K) * f| := by linarith
+  have hnr : InRange lo hi (n : K) := by
+    have : 0 ≤ |(n : K)| := abs_nonneg _
+    constructor <;> linarith
+  obtain ⟨r1, h1, a1⟩ := copy_value_within A u lo hi S m new hm hn n f hnr hfr hlo hhi
+  obtain ⟨r2, h2, a2⟩ := inplace_value_within A u lo hi S new hn n f hnlo hnhi (le_of_lt hlo0) hfr hlo hhi
   have key : ∀ r : K, Approx r ((n : K) * f) ((1 + u) ^ 4 - 1) → r ≠ 0 := by
     intro r ha h0
     unfold Approx at ha
@@ -101,5 +143,84 @@ theorem never_zero_when_exact_nonzero (A : NumOps K) (u : K) (S : StandardModel 
   constructor
   · rw [h1]; intro h; exact key r1 a1 (by injection h)
   · rw [h2]; intro h; exact key r2 a2 (by injection h)
+
+/-! ### a witness that is not exact arithmetic, and what happens outside the range -/
+
+section witness
+variable [FloorRing K]
+
+/-- rounding to the nearest multiple of the grid step `g` (fixed-point rounding: accurate above
+    `g / (2u)`, flushes everything below `g / 2` to zero — the shape of float underflow) -/
+def gridOps (g : K) : NumOps K := ⟨fun n => (n : K), fun _ x => g * (round (x / g) : K)⟩
+
+theorem gridOps_err (g : K) (hg : 0 < g) (d : Dtype) (x : K) : |(gridOps g).cast d x - x| ≤ g / 2 := by
+  have hgne : g ≠ 0 := ne_of_gt hg
+  have h1 : (gridOps g).cast d x - x = g * ((round (x / g) : K) - x / g) := by
+    simp only [gridOps]; field_simp
+  rw [h1, abs_mul, abs_of_pos hg]
+  have h2 : |(round (x / g) : K) - x / g| ≤ 1 / 2 := by
+    rw [abs_sub_comm]; exact abs_sub_round (x / g)
+  nlinarith
+
+/-- the hypotheses of the theorems above are met jointly by an inexact model: for every `0 < u ≤ 1/16`
+    and `0 < lo`, rounding to multiples of `g = 2·u·lo` is a range model on `[lo, hi]` -/
+theorem gridOps_rangeModel (u lo hi : K) (hu : 0 < u) (hu16 : u ≤ 1 / 16) (hlo : 0 < lo) :
+    RangeModel (gridOps (2 * u * lo)) u lo hi := by
+  have hg : 0 < 2 * u * lo := by positivity
+  have key : ∀ d x, InRange lo hi x → |(gridOps (2 * u * lo)).cast d x - x| ≤ u * |x| := by
+    intro d x hx
+    have h := gridOps_err (2 * u * lo) hg d x
+    have : u * lo ≤ u * |x| := mul_le_mul_of_nonneg_left hx.1 (le_of_lt hu)
+    linarith
+  exact ⟨le_of_lt hu, hu16, key, fun d n hn => key d (n : K) hn⟩
+
+/-- the model is genuinely inexact and genuinely bounded: below the range a non-zero value is
+    flushed to zero, so it does **not** satisfy the relative-error bound for all `x` -/
+theorem gridOps_underflows (g : K) (hg : 0 < g) (d : Dtype) :
+    (gridOps g).cast d (g / 4) = 0 ∧ g / 4 ≠ 0 := by
+  have hgne : g ≠ 0 := ne_of_gt hg
+  constructor
+  · simp only [gridOps]
+    have : g / 4 / g = (1 / 4 : K) := by field_simp
+    rw [this]
+    have hr : round (1 / 4 : K) = 0 := by
+      rw [round_eq_zero_iff]
+      constructor <;> norm_num
+    rw [hr]; simp
+  · positivity
+
+end witness
+
+/-- non-vacuity over ℚ: binary16-like parameters (`u = 2⁻¹¹`, smallest normal `2⁻¹⁴`, largest
+    finite 65504) admit an inexact range model -/
+example : RangeModel (gridOps (2 * (1 / 2048 : ℚ) * (1 / 16384))) (1 / 2048) (1 / 16384) 65504 :=
+  gridOps_rangeModel _ _ _ (by norm_num) (by norm_num) (by norm_num)
+
+/-- … and a concrete instance meeting every hypothesis of `never_zero_inside_range` jointly:
+    n = 3, f = 1/1000 (3 m in km), exact value 0.003 — an integer operation would give 0 -/
+example :
+    copyValue (gridOps (2 * (1 / 2048 : ℚ) * (1 / 16384))) ⟨.f, 8⟩ ⟨.f, 2⟩ (.int 3) (1 / 1000) none ≠ .real 0
+    ∧ inplaceValue (gridOps (2 * (1 / 2048 : ℚ) * (1 / 16384))) ⟨.f, 2⟩ (.int 3) (1 / 1000) none ≠ .real 0 :=
+  never_zero_inside_range _ (1 / 2048) (1 / 16384) 65504
+    (gridOps_rangeModel _ _ _ (by norm_num) (by norm_num) (by norm_num))
+    ⟨.f, 8⟩ ⟨.f, 2⟩ (by decide) (by decide) 3 (1 / 1000)
+    (by norm_num) (by norm_num) (by norm_num) ⟨by norm_num [abs_of_pos], by norm_num [abs_of_pos]⟩
+    (by norm_num [abs_of_pos]) (by norm_num [abs_of_pos])
+
+/-- outside the range the conclusion fails, for a model that satisfies the hypotheses: an exact
+    converted value that is non-zero but below the smallest accurately represented magnitude is
+    rounded to 0 on both routes (1 nm held as an integer, in metres, in a binary16-like format).
+    This is rounding to the float type — what the property asks for — not integer truncation. -/
+theorem underflow_outside_range :
+    ∃ (A : NumOps ℚ) (u lo hi : ℚ), RangeModel A u lo hi ∧ 0 < u ∧
+      ((1 : Int) : ℚ) * (1 / 1000000000) ≠ 0 ∧
+      copyValue A ⟨.f, 8⟩ ⟨.f, 2⟩ (.int 1) (1 / 1000000000) none = .real 0 ∧
+      inplaceValue A ⟨.f, 2⟩ (.int 1) (1 / 1000000000) none = .real 0 := by
+  refine ⟨gridOps (2 * (1 / 2048 : ℚ) * (1 / 16384)), 1 / 2048, 1 / 16384, 65504,
+    gridOps_rangeModel _ _ _ (by norm_num) (by norm_num) (by norm_num), by norm_num, by norm_num, ?_, ?_⟩
+  · simp only [copyValue, castElem, mulIn, offsetTruthy, gridOps, reduceCtorEq, if_false]
+    norm_num [round_eq_zero_iff]
+  · simp only [inplaceValue, castElem, mulIn, offsetTruthy, gridOps, reduceCtorEq, if_false]
+    norm_num [round_eq_zero_iff]
 
 end Unyt.C17R
